@@ -1087,6 +1087,20 @@ impl Vm {
 
                     for _ in 0..num_parts {
                         let part = match self.pop() {
+                            Value::FormatSpecifiers(Some(specifiers))
+                                if specifiers
+                                    .split(|c: char| !c.is_ascii_digit())
+                                    .any(|n| !n.is_empty() && n.parse::<u16>().is_err()) =>
+                            {
+                                // Rust's formatting machinery panics for a width or precision
+                                // that does not fit into 16 bits.
+                                return Err(Box::new(self.runtime_error(
+                                    RuntimeErrorKind::InvalidFormatSpecifiers(format!(
+                                        "width and precision must not exceed {} in '{specifiers}'",
+                                        u16::MAX
+                                    )),
+                                )));
+                            }
                             Value::FormatSpecifiers(Some(specifiers)) => match self.pop() {
                                 Value::Quantity(q) => {
                                     let q =
